@@ -20,6 +20,8 @@ fn two_fabrics() -> Vec<Op> {
 }
 
 pub fn run_check(ctx: &Ctx) -> i32 {
+    // this check observes the resumption cache in the store too: the device runs the job that flushes it
+    crate::common::commdrv::PERSIST_RESUMPTION.store(true, std::sync::atomic::Ordering::Relaxed);
     if let Some(p) = &ctx.replay {
         let doc: Value = serde_json::from_str(&std::fs::read_to_string(p).expect("replay file")).expect("json");
         std::env::set_var("MC_SHOW_PANICS", "1");
